@@ -58,7 +58,8 @@ func nondetUses(p *an.Prog, fn *ssa.Function) []string {
 
 func C16(p *an.Prog, r *an.Report) {
 	r.Explanation = "X1: the call-graph closure of CreateBlindedDestination through the library and go-i2p/crypto contains no nondeterminism source (time.Now, math/rand, crypto/rand, map iteration, goroutines; logging excluded). X2: the day string given to kdf.DeriveBlindingFactor is date.UTC().Format(\"2006-01-02\") of the date parameter and the secret is the secret parameter. X3: the blinded destination is NewKeysAndCert(dest.KeyCertificate, dest.ReceivingPublic, dest.Padding, blinded key) of the same dest. X4: DecryptInnerData evaluated under the assumption that the AEAD open fails reports no success, its success value originates only from the AEAD plaintext, and the slice offsets it reads (ephemeral key [0,32), nonce [32,44), ciphertext [44,n-16), tag [n-16,n)) equal, as affine forms, the order and sizes EncryptInnerLeaseSet2 appends. X5: VerifyBlindedSignature returns the equality of the blinded destination's key with BlindPublicKey(original key, alpha). decrypt(encrypt(x)) = x as a value equality and AEAD tamper rejection are properties of the primitives (trusted)."
-	r.Rule = "one obligation per clause; the closure scan counts functions scanned; non-trivial = a concrete call site or slice was resolved"
+	r.Rule = "one obligation per clause; the closure scan counts functions scanned; non-trivial = a concrete call site or slice was resolved; X6: one obligation per copy() on the encrypt/decrypt path"
+	defer c16Copies(p, r)
 	r.Trusted = []string{"go-i2p/crypto (kdf, ed25519 blinding, chacha20poly1305), go.step.sm x25519", "go/ssa, VTA call graph"}
 
 	// X1
@@ -466,4 +467,65 @@ func staticLen(v ssa.Value) string {
 		}
 	}
 	return "?"
+}
+
+
+// c16Copies (X6): on the encrypt/decrypt path no copy() may silently truncate: for every
+// copy(dst, src) in the library functions reachable from EncryptInnerLeaseSet2 / DecryptInnerData
+// inside package encrypted_leaseset, len(dst) >= len(src) must hold on every path (relational
+// bounds proof, engine E11). A key, nonce or ciphertext copied into a shorter buffer makes
+// decrypt(encrypt(x)) fail or differ for every x.
+func c16Copies(p *an.Prog, r *an.Report) {
+	var roots []*ssa.Function
+	for _, name := range []string{"encrypted_leaseset.EncryptInnerLeaseSet2", "encrypted_leaseset.(*EncryptedLeaseSet).DecryptInnerData"} {
+		if fn := p.Func(name); fn != nil {
+			roots = append(roots, fn)
+		} else {
+			r.Fail("C16.X6: anchor %s not found", name)
+		}
+	}
+	b := an.NewBounds(p)
+	// trusted: an X25519 shared secret is 32 bytes
+	b.Axioms = func(b *an.Bounds, c *ssa.Call, prove func(an.Lin) bool) []an.Fact {
+		callee := c.Call.StaticCallee()
+		if callee == nil || callee.Name() != "SharedKey" || !strings.Contains(an.FnKey(callee), "x25519.PrivateKey") {
+			return nil
+		}
+		for _, ref := range *c.Referrers() {
+			if ex, ok := ref.(*ssa.Extract); ok && ex.Index == 0 {
+				return []an.Fact{{L: an.LinConst(32).Add(b.LenOf(ex), -1), Why: "X25519 shared secrets are 32 bytes"}}
+			}
+		}
+		return nil
+	}
+	clos := p.Reachable(p.CG(), roots, func(f *ssa.Function) bool { return strings.HasSuffix(an.FnPkgPath(f), "/encrypted_leaseset") })
+	var fns []*ssa.Function
+	for f := range clos {
+		if strings.HasSuffix(an.FnPkgPath(f), "/encrypted_leaseset") {
+			fns = append(fns, f)
+		}
+	}
+	sort.Slice(fns, func(i, j int) bool { return an.FnKey(fns[i]) < an.FnKey(fns[j]) })
+	n := 0
+	for _, fn := range fns {
+		k := 0
+		for _, blk := range fn.Blocks {
+			for _, in := range blk.Instrs {
+				c, ok := in.(*ssa.Call)
+				if !ok || !isBuiltin(c, "copy") || len(c.Call.Args) != 2 {
+					continue
+				}
+				n++
+				k++
+				goal := b.LenOf(c.Call.Args[0]).Add(b.LenOf(c.Call.Args[1]), -1)
+				pr := b.ProveAt(c, goal)
+				r.Check(pr.OK, "C16.X6", fmt.Sprintf("%s/copy%d", an.FnKey(fn), k), p.Pos(c.Pos()),
+					"copy() on the encrypt/decrypt path does not truncate: len(dst) >= len(src) on every path", append([]string{"goal " + goal.String() + " >= 0"}, pr.Trail...)...)
+			}
+		}
+	}
+	r.Analysed["copies on the encrypt/decrypt path"] = n
+	if n < 3 {
+		r.Fail("C16.X6: only %d copy() calls found on the encrypt/decrypt path (expected at least 3)", n)
+	}
 }
